@@ -119,11 +119,15 @@ CHECKS = {
                 " iterators, JSON, Map/Set, regexp, string/array methods with freshly allocated otherwise-unreferenced "
                 "arguments; the pure operator matrix is thinned) + statement-level snippets + composed programs of the shared "
                 "corpus; each program is run with the collector off and under thresholds 1,2,3,5,7,100 and a forced collect() "
-                "before every step, and for a subset under a single forced collect() at every individual step; plus the await /"
-                " concurrency programs of C07 driven by the scripted order host (immediate and deferred answers) under "
-                "thresholds 1,2,3,5,7 with and without collect() after every host action, compared with the same conversation "
-                "with the collector off. A (program, schedule) pair is non-trivial when the H1 counters show that a collection "
-                "swept at least one object during the run; pairs are distinct by construction",
+                "before every step, and for a subset under a single forced collect() at every individual step; plus transit "
+                "programs (values referenced only from inside a built-in - its private copy, an iterator being drained, a "
+                "promise's handler list - while callbacks / next() / getters / coercion hooks allocate and detach them: 7 "
+                "iterable sources x 26 consumers, 29 array methods x 5 detach modes x 3 invocation indices, 37 walks incl. "
+                "scratch-buffer reuse, elements written as literals) and the await / concurrency / promise-transit programs of "
+                "C07 driven by the scripted order host (immediate and deferred answers) under thresholds 1,2,3,5,7 with and "
+                "without collect() after every host action, compared with the same conversation with the collector off. A "
+                "(program, schedule) pair is non-trivial when the H1 counters show that a collection swept at least one object "
+                "during the run; pairs are distinct by construction",
         "exhaustive": "every inter-step collection point of the subset of short programs (see observed.programs_with_every_collection_point)",
         "floor": {"quick": 20000, "thorough": 100000},
         "unit_timeout": {"default": 900},
@@ -293,15 +297,15 @@ CHECKS = {
         "engines": NATIVE,
         "level": "exploration",
         "rule": "histories on one interpreter: a dead run (26 nesting kinds x 3 fault kinds, at script top level, inside a "
-                "function and as a module body; 7 stalled runs - unanswered order, never-settling promise, imports never "
-                "supplied, syntax error, unhandled rejections -; and runs abandoned by the host after s steps, for EVERY s of "
-                "each of 26 programs in the thorough tier / in both tiers) composed programs with dozens of orders (C07's "
-                "generated family, as scripts and as modules) where the host answers the first k orders and walks away, for "
-                "every k; or a random sequence of 2-3 such runs, followed by 11 observer programs (probing every name a dead "
-                "run declared, importing the dead module again from a script and from a module, reading the host-side export "
-                "table, re-declaration, completions through finally, labelled loops, generators, async functions, modules, "
-                "awaits, a host order). A history is non-trivial when the dead run really ended the way the history says; "
-                "histories are distinct by construction",
+                "function and as a module body, plus runs that issued orders through native built-ins without suspending on "
+                "them; 7 stalled runs - unanswered order, never-settling promise, imports never supplied, syntax error, "
+                "unhandled rejections -; and runs abandoned by the host after s steps, for EVERY s of each of 26 programs in "
+                "the thorough tier / in both tiers) composed programs with dozens of orders (C07's generated family, as scripts"
+                " and as modules) where the host answers the first k orders and walks away, for every k; or a random sequence "
+                "of 2-3 such runs, followed by 11 observer programs (probing every name a dead run declared, importing the dead"
+                " module again from a script and from a module, reading the host-side export table, re-declaration, completions"
+                " through finally, labelled loops, generators, async functions, modules, awaits, a host order). A history is "
+                "non-trivial when the dead run really ended the way the history says; histories are distinct by construction",
         "exhaustive": "every abandonment step of the 26 nesting programs",
         "floor": {"quick": 300, "thorough": 1000},
         "technique": "runtime monitoring: metamorphic oracle (observer on reused vs fresh interpreter) plus H4 quiescence summary after "
@@ -450,11 +454,12 @@ CHECKS = {
                 "dup and free in any order, globals, spot checks of every live handle through the inspectors and "
                 "tsrun_json_stringify, forced collections (hundreds of short-lived handles, allocation-heavy scripts), scripts "
                 "that read host-provided globals back, native callbacks that re-enter the API (create values, parse JSON, call "
-                "script functions, throw), tsrun_call with host values, order round trips whose object responses are released "
-                "right after tsrun_fulfill_orders and followed by allocation, module runs with import requests and export "
-                "tables, and contexts freed before their values; plus one unit that passes NULL in every pointer position of "
-                "every exported function. A sequence is non-trivial when a collection reclaimed at least one object while it "
-                "ran (H1 sweep counter; Miri: every sequence); sequences are distinct by construction",
+                "script functions, throw; native -> script -> native three levels deep with growing argument lists, every level"
+                " reading its own arguments after the nested call), tsrun_call with host values, order round trips whose object"
+                " responses are released right after tsrun_fulfill_orders and followed by allocation, module runs with import "
+                "requests and export tables, and contexts freed before their values; plus one unit that passes NULL in every "
+                "pointer position of every exported function. A sequence is non-trivial when a collection reclaimed at least "
+                "one object while it ran (H1 sweep counter; Miri: every sequence); sequences are distinct by construction",
         "exhaustive": "NULL in each pointer parameter of each exported function, one at a time",
         "floor": {"quick": 600, "thorough": 3000},
         "unit_timeout": {"default": 900, "miri": 2400},
